@@ -125,3 +125,25 @@ Definition check_nested (c : nested_case) : bool :=
 Definition show_nested (c : nested_case) :=
   (nested_dom (nc_w c) (nc_a c) (nc_b c),
    rmap (fun pr => (map show_w (fst pr), show_w (snd pr))) (run_nested (nc_w c) (nc_a c) (nc_b c))).
+
+(** * extension level: merge then split (inputs need not be canonical) *)
+Record ems_case := mk_ems_case {
+  em_exts : list jext; em_dim : nat;
+  em_obs : res (list jext) }.    (* [get_subset (from_sequence exts dim) dim i] for every i, or the first exception *)
+
+Definition run_ems (c : ems_case) : res (list jext) :=
+  match from_sequence jv_eqb JNull (em_exts c) (em_dim c) None None with
+  | Ok r => mapM (fun i => get_subset jv_eqb JNull r (em_dim c) i) (seq 0 (length (em_exts c)))
+  | Err e => Err e
+  end.
+
+Fixpoint exts_eqb (a b : list jext) : bool :=
+  match a, b with
+  | [], [] => true
+  | x :: xs, y :: ys => ext_eqb x y && exts_eqb xs ys
+  | _, _ => false
+  end.
+
+Definition check_ems (c : ems_case) : bool :=
+  Ext.Corr.inputs_ok (em_exts c) && res_eqb exts_eqb (run_ems c) (em_obs c).
+Definition show_ems (c : ems_case) := run_ems c.
